@@ -427,10 +427,31 @@ func K13() *Entry {
 	return &Entry{Name: "k13", File: f, Cfg: c, Tags: []string{"schema_types"}}
 }
 
+// K14: deep nesting (six levels, alternating list / map / by-value / nullable), the same leaf
+// message at several depths, a oneof and a nullable embed at the bottom.
+func K14() *Entry {
+	f6 := WithOneofs(M("LevelSix", F("SixName"), F("SixTags", Rep()), F("SixText", In(0)), F("SixCount", Sc(ir.Int64), In(0)), F("SixPart", MsgT("SixPart"), Embed())), "SixPick")
+	part := M("SixPart", F("PartNote"), F("PartWhen", TS(), Null()))
+	f5 := M("LevelFive", F("FiveName"), F("Sixes", MsgT("LevelSix"), MapOf(), NonNull()), F("Six", MsgT("LevelSix")))
+	f4 := M("LevelFour", F("FourName"), F("Fives", MsgT("LevelFive"), Rep()))
+	f3 := M("LevelThree", F("ThreeName"), F("Four", MsgT("LevelFour"), NonNull()), F("ShortCut", MsgT("LevelSix")))
+	f2 := M("LevelTwo", F("TwoName"), F("Threes", MsgT("LevelThree"), MapOf()))
+	f1 := M("LevelOne", F("OneName"), F("Twos", MsgT("LevelTwo"), Rep(), NonNull()), F("Two", MsgT("LevelTwo")))
+	f := file("k14", f1, f2, f3, f4, f5, f6, part)
+	AutoComments(f)
+	c := BaseConfig("LevelOne")
+	c.Sort = false
+	c.SortSet = true
+	c.RequiredFields = []string{"LevelOne.Twos.Threes.Four.Fives.Sixes.SixName"}
+	c.ExcludeFields = []string{"LevelOne.Two.Threes.ShortCut"}
+	c.NameOverrides = map[string]string{"LevelSix.SixTags": "six_labels"}
+	return &Entry{Name: "k14", File: f, Cfg: c, Tags: []string{"depth6", "embed?", "oneof-nested"}}
+}
+
 // Curated returns the curated corpus. known=true adds the isolated shapes that
 // are known not to compile on the pinned tree (D1, D2).
 func Curated() []*Entry {
-	return []*Entry{K1(), K2(), K3(), K4(), K5(), K6(0), K6(1), K6(2), K7(), K7X(), K8(), K9(), K10(false), K10(true), K12(), K13()}
+	return []*Entry{K1(), K2(), K3(), K4(), K5(), K6(0), K6(1), K6(2), K7(), K7X(), K8(), K9(), K10(false), K10(true), K12(), K13(), K14()}
 }
 
 // Exotic returns the isolated shapes (K11).
